@@ -165,8 +165,47 @@ fn observe_scan(sc: &Scanner, input: &[u8], sink: &Sink) -> Value {
     json!({"error": err, "rules": rules, "logs": logs})
 }
 
+/// The same probe through the callback API and through the fragmented APIs (one region): every entry point of
+/// `Scanner` passes its own four fields to `Inner`.
+fn observe_other_apis(sc: &Scanner, probe: &[u8], sink: &Sink) -> Value {
+    let mut out = Vec::new();
+    // scan_mem_with_callback
+    sink.lock().unwrap().clear();
+    let mut matched: Vec<String> = Vec::new();
+    let res = sc.scan_mem_with_callback(probe, |ev| {
+        if let ScanEvent::RuleMatch(r) = &ev {
+            matched.push(r.name.to_string());
+        }
+        ScanCallbackResult::Continue
+    });
+    out.push(json!({"api": "mem_cb", "error": res.err().map(|e| error_name(&e)), "matched": matched,
+                    "logs": std::mem::take(&mut *sink.lock().unwrap())}));
+    // scan_fragmented
+    let (err, r) = match sc.scan_fragmented(Pieces { mem: probe, piece: probe.len().max(1), cur: None, rng: None }) {
+        Ok(r) => (None, r),
+        Err((e, r)) => (Some(error_name(&e)), r),
+    };
+    let rules: Vec<Value> = r.rules.iter().map(|r| json!({"name": r.name, "matched": r.matched})).collect();
+    out.push(json!({"api": "frag", "error": err, "rules": rules, "logs": std::mem::take(&mut *sink.lock().unwrap())}));
+    // scan_fragmented_with_callback
+    let mut matched: Vec<String> = Vec::new();
+    let res = sc.scan_fragmented_with_callback(
+        Pieces { mem: probe, piece: probe.len().max(1), cur: None, rng: None },
+        |ev| {
+            if let ScanEvent::RuleMatch(r) = &ev {
+                matched.push(r.name.to_string());
+            }
+            ScanCallbackResult::Continue
+        },
+    );
+    out.push(json!({"api": "frag_cb", "error": res.err().map(|e| error_name(&e)), "matched": matched,
+                    "logs": std::mem::take(&mut *sink.lock().unwrap())}));
+    json!(out)
+}
+
 fn observe(sc: &Scanner, probe: &[u8], probe_pe: Option<&[u8]>, sink: &Sink) -> Value {
-    let mut o = json!({"params": params_json(sc.scan_params()), "probe": observe_scan(sc, probe, sink)});
+    let mut o = json!({"params": params_json(sc.scan_params()), "probe": observe_scan(sc, probe, sink),
+                       "other": observe_other_apis(sc, probe, sink)});
     if let Some(pe) = probe_pe {
         o["probe_pe"] = observe_scan(sc, pe, sink);
     }
